@@ -226,6 +226,8 @@ class Frame:
     def _new(self, axis=None, cols=None, index=None):
         axis = axis or self.axis
         f = self.__class__(axis, {}, index if index is not None else self.index, self.idkey)
+        if getattr(self, "_ncols", None) is not None:
+            f._ncols = self._ncols
         for k, c in (cols if cols is not None else self.cols).items():
             f.cols[k] = c if isinstance(c, Poison) else V(c.t, (axis,), f.index, c.nan, c.inf, c.meta)
         return f
@@ -540,6 +542,13 @@ def _m_copy(self, interp):
 
 
 def _m_shape(self, interp):
+    if getattr(self, "opaque", False):
+        # a design matrix whose column set depends on the data: the NUMBER of columns is an unknown positive integer
+        # (the same for every row slice of the same matrix)
+        if getattr(self, "_ncols", None) is None:
+            self._ncols = z3.Int(fresh_name("n_design_columns"))
+            interp.ctx.assume(self._ncols >= 1)
+        return (self.length(), V(self._ncols))
     return (self.length(), len(self.cols))
 
 
